@@ -60,6 +60,12 @@ class C05(Check):
             for n in ((12,) if tier == 'quick' else (8, 9, 12, 24)):
                 for ds in ((34.0, 7.25) if tier == 'quick' else (34.0, 7.25, 125.5, 1.0, 300.0)):
                     js.append(dict(kind='spatial_long', n=n, shape=shape, step=ds))
+                # value-kind probes: the numeric step given as Python int, numpy float, numpy int
+                for st, sk in ((2000, 'int'), (2500, 'npfloat'), (1000.0 / 3, 'npfloat'), (3000, 'npint')):
+                    js.append(dict(kind='temporal_long', n=n, shape=shape, step=st, stepkind=sk))
+                # leftover-state probe: abs_curv computed, then the geometry edited in place, then spatial resampling
+                js.append(dict(kind='spatial_long', n=n, shape=shape, step=34.0, stale=True))
+                js.append(dict(kind='spatial_long', n=n, shape=shape, step=7.25, stale=True))
                 for st in ((3350, 333, 1000.0 / 3, 162.5) if tier == 'quick' else (3350, 333, 1000, 162, 9050, 40, 1000.0 / 3, 162.5, 1000.0 / 7, 62.5)):      # milliseconds, whole and fractional
                     js.append(dict(kind='temporal_long', n=n, shape=shape, step=st))
         return js
@@ -153,6 +159,18 @@ class C05(Check):
             return abs(a - b) <= 1e-6 * scale
         if job['kind'] == 'spatial_long':
             ds = float(job['step'])
+            if job.get('stale'):
+                # a history: the curvilinear abscissa is computed (as plotting a profile does), then two fixes are moved in place
+                from tracklib.algo.cinematics import computeAbsCurv
+                computeAbsCurv(tr)
+                for i, (dx, dy) in ((2, (35.0, -20.0)), (n - 3, (-3.0, 11.0))):
+                    xs[i] += dx
+                    ys[i] += dy
+                    tr.getObs(i).position.setX(xs[i])
+                    tr.getObs(i).position.setY(ys[i])
+                S = [0.0]
+                for i in range(n - 1):
+                    S.append(S[-1] + math.hypot(xs[i + 1] - xs[i], ys[i + 1] - ys[i]))
             tr.resample(ds, 1, 1)
             m = tr.size()
             if sym:
@@ -204,7 +222,13 @@ class C05(Check):
             return dict(violation=None, outputs=dict(size=m))
         # temporal, numeric step in milliseconds
         st = job['step']
-        tr.resample(st / 1000.0, 1, 2)
+        if job.get('stepkind'):
+            import numpy as np
+            arg = {'int': lambda v: int(round(v / 1000.0)), 'npfloat': lambda v: np.float64(v / 1000.0), 'npint': lambda v: np.int64(round(v / 1000.0))}[job['stepkind']](st)
+            st = float(arg) * 1000.0
+        else:
+            arg = st / 1000.0
+        tr.resample(arg, 1, 2)
         m = tr.size()
         if sym:
             ctx.reach()
